@@ -2,9 +2,9 @@ import QuiverModel.Core.VM.Step
 /-
 M-RefSem ↔ M-VM, fragment compiler `compile0` (stretch goal of C02, DESIGN §5).
 
-A Lean model of what `quiver-compiler/src/compiler.rs` emits for the **jump-free value-flow
-fragment**: integer literals, the ripple `~`, tuple literals (any nesting) whose fields are chains of
-these, and chains of such terms. It mirrors
+A Lean model of what `quiver-compiler/src/compiler.rs` emits for the **value-flow fragment**: integer
+literals, the ripple `~`, tuple literals (any nesting) whose fields are chains of these, chains of such
+terms, and (at the end of the file) sequences of such chains with the nil short-circuit jumps. It mirrors
 
   compile_term   Literal  : `Pop` (drop the flowing value), `Constant(i)`
   compile_access Ripple   : nothing — the flowing value already sits on the stack
@@ -114,5 +114,29 @@ theorem runList_append (O : Oracle) (P : Prog) (a b : List Instr) (p : Proc) :
     cases stepInstr O P p i with
     | ok r => exact ih r.1
     | error e => rfl
+
+
+/-! ### Sequences (compile_sequence): `c₁, c₂, …` with the nil short-circuit -/
+
+/-- sequences of the fragment -/
+inductive Sq0 where
+  | last (c : Ch0)
+  | cons (c : Ch0) (rest : Sq0)
+
+/-- compile_sequence: each step's code; between steps `emit_duplicate_jump_if_nil` = `Duplicate, Not,
+JumpIf(off)` with all jumps patched to the end of the sequence -/
+def compileSq : Sq0 → List Instr
+  | .last c => compileCh c
+  | .cons c r => compileCh c ++ [.duplicate, .not, .jumpIf (compileSq r).length] ++ compileSq r
+
+/-- "each step starts from the previous step's result, and if a step evaluates to nil the rest of the
+sequence short-circuits and the whole sequence evaluates to nil" -/
+def evalSq : Val → Sq0 → Val
+  | flow, .last c => evalCh flow c
+  | flow, .cons c r => let v := evalCh flow c; if v.isNil then v else evalSq v r
+
+def wfSq (P : Prog) : Sq0 → Prop
+  | .last c => wfCh P c
+  | .cons c r => wfCh P c ∧ wfSq P r
 
 end QM.RefSem.C0
